@@ -9,6 +9,8 @@ use serde::{Deserialize, Serialize};
 use std::collections::BTreeMap;
 
 pub mod stream;
+pub mod acks;
+pub mod durability;
 
 #[derive(Clone, Debug, Serialize, Deserialize, PartialEq)]
 pub struct Violation {
@@ -53,6 +55,8 @@ pub struct ScenarioDef {
 pub fn all() -> Vec<ScenarioDef> {
     let mut v = vec![];
     v.extend(stream::defs());
+    v.extend(acks::defs());
+    v.extend(durability::defs());
     v
 }
 
